@@ -17,7 +17,7 @@ NA = {
     'C18': 'dump-then-parse fidelity is a function of the tree; the stream/file arguments are incidental and nothing is promised about partial writes',
     'C19': 'copy/pickle fidelity is a function of the tree; nothing is promised about truncated pickles or concurrent mutation',
 }
-PLANNED = ['C12', 'C15']
+PLANNED = ['C15']
 
 CHECKS = {
     'C20': {
@@ -35,6 +35,11 @@ CHECKS = {
         'note': 'the monitor flags only what the statement forbids (the library may be more conservative); evaluated code is restricted to the probe rec(token, names...) and name reads; pre-emption points as in C20',
         'technique': 'deterministic simulation: seeded thread schedules + simulated include I/O + failing sources, taint-monitor invariant on every executed call/import/eval',
         'ref': 'DESIGN.md 4 (C07)'},
+    'C12': {
+        'text': 'seeded search over process histories (1-4 builds per forked process reusing node paths and code text with different config values, symbols, evaluation contexts and file names or none; some builds fail inside user code), optionally two histories in two threads under the seeded scheduler (shared sys.modules), with programs from a seeded grammar (expressions, assignments, def/lambda/closures/global, comprehensions, if/for/while with break/continue, try/except/finally, with, imports, >256 names needing extended bytecode arguments, deliberate errors) and f-strings (explicit and implicit form). Oracle per build: the interpreter\'s own exec/eval of the same program in a plain dict namespace (config entries, then symbols; definitions shadow; builtins last) run in a sibling fork - equal value and type, EvalError carrying the original cause along __cause__, and the child process must not die (a death by signal is reported as eval.crash). Sampling, not proof.',
+        'note': 'CPython 3.12.1 only; programs contain no ";" and no class bodies reading config names; process-wide default eval symbols are treated as client configuration and reset by the client between builds',
+        'technique': 'deterministic simulation: seeded build histories / thread schedules in forked processes (crash = child death), native exec/eval reference namespace per build',
+        'ref': 'DESIGN.md 4 (C12)'},
     'C17': {
         'text': 'seeded search over operation-and-fault histories on a two-copy store (built-in dict/list storage vs child map): a Hypothesis stateful machine (one PRNG value per simulated run, database off) generates and shrinks sequences of all listed public mutators with in-range / out-of-range / negative / non-integer indices, missing and forbidden keys, unconvertible values, iterators that raise after k items and mappings whose items() raises; after every step a plain dict/list model and the cross-view invariants (same keys, same order, same objects, every entry a node, children 0..n-1, walk==lookup, path text round trip, evaluation == model) are checked; a failed operation must leave the pre-state or, for extend/update, a prefix. Sampling, not proof.',
         'note': 'no asynchronous exceptions are injected; slices/sort/reverse/+=/popitem are outside the statement; operations without a Python-defined result (set_child beyond the end of a list, rename_child) are checked against the invariants only',
